@@ -8,8 +8,12 @@ reset meta=<cfg meta ttl s> limit=<RecoveryMaxPublicationLimit>        -> ok
 pub tag=<n> size=<n> ttl=<s>                                           -> off=<o> ep=<epoch index>
 remove                                                                 -> ok
 adv n=<seconds>                                                        -> ok
-sub mode=stream|cache rec=0|1 auto=0|1 off=<o> ep=<epoch index, 0 = empty> rej=0|1 delta=0|1
-    cf=<filter> sf=<filter> h=<handler>
+sub [via=cmd|connect] mode=stream|cache rec=0|1 auto=0|1 off=<o> ep=<epoch index, 0 = empty> rej=0|1
+    delta=0|1 cf=<filter> sf=<filter> h=<handler>
+      via     = cmd (default): client subscribe command; connect: server-side subscription returned by
+                OnConnecting with the position taken from ConnectRequest.Subs — `connectCmd` copies
+                Recover/Offset/Epoch/Delta into the request handed to the same `subscribeCmd`, there is no
+                client tags filter and no reject flag on that path (cf must be -, rej 0, else bad-op)
       filter  = -  | e<v> (tag == v) | n<v> (tag != v)
       handler = -  | err:<pubs> | 0:<pubs> | 1:<pubs>    pubs = tag.size.ttl joined by + (or empty)
   -> <outcome> pre=<state> post=<state> hi=<handler invoked 0|1> hp=<offsets the handler published>
@@ -107,7 +111,10 @@ def step (h : Hub) (line : String) : Hub × String :=
       bit rest "delta", (kv rest "cf").bind parseOne, (kv rest "sf").bind parseOne,
       (kv rest "h").bind parseHandler with
     | some r, some a, some off, some ep, some rej, some d, some cf, some sf, some hd =>
+      let via := (kv rest "via").getD "cmd"
       if mode != some "stream" && mode != some "cache" then (h, "bad-op") else
+      if via != "cmd" && via != "connect" then (h, "bad-op") else
+      if via == "connect" && (cf.isSome || rej) then (h, "bad-op") else
       -- an epoch index that does not exist yet stands for a foreign epoch string
       let ep := if ep ≥ h.nextEpoch then ep + 1000000000 else ep
       let sp : SubParams := ⟨mode == some "cache", r, a, ⟨off, ep, rej⟩, d, mkFilt cf sf, hd⟩
